@@ -212,6 +212,8 @@ class Check:
 
         # --- replay witnesses (reachability + translation validation) --------
         max_w = meta.get('max_witness_replays', {'quick': 24, 'thorough': 96})[self.tier]
+        if os.environ.get('VERIF_ALL_WITNESSES'):
+            max_w = 10 ** 6          # development aid: replay every witness prediction, not a spread of them
         wsel = _spread(witnesses, max_w)
         validated = 0
         wbad = []
